@@ -1,4 +1,5 @@
-import RawPanelVerif.Props.C07
+import RawPanelVerif.Lemmas.StripOneLine
+import RawPanelVerif.Lemmas.StripContent
 import RawPanelVerif.Model.DecOut
 /-!
 # Totality of the outbound converters (the outbound half of C06)
